@@ -42,6 +42,10 @@ def modcovar_marple (X,IP):
     :References: [Marple]_
     """
     Pv = []
+    X = np.asarray(X)
+    if X.dtype.kind in 'iub':
+        # integer samples: the products below do not fit a narrow dtype
+        X = X.astype(float)
     N = len(X)
     A = np.zeros(N, dtype=complex)
     D = np.zeros(N, dtype=complex)
